@@ -7,7 +7,9 @@ grid of long synthetic phases.  Oracle: wrap positions recomputed from the phase
 import itertools
 import numpy as np
 
-from ..engine.explore import Outcome
+from ..engine.explore import Outcome, Refill
+
+_refill = Refill()
 from ..engine import enum
 
 PID = 'C12'
@@ -75,6 +77,10 @@ def cases(tier, seed):
     # larger scope: many thousands of cycles in one column (label counters, caches and block sizes live here)
     for ncyc in (300, 33000) if tier == 'quick' else (300, 5000, 33000, 70000):
         yield ('giant', ncyc, 0, 'vector', seed)     # phase_step = pi: every cycle boundary of the 3..6-sample cycles is a wrap
+    # larger scope: recordings beyond 2^16 / 2^17 samples whose wraps fall exactly on powers of two and their multiples
+    # (cycle lengths 128, 128, 256, 512, ... and a constant 4096), plus one with wraps one sample either side
+    for what in ('pow2', 'const4096', 'pow2-1', 'pow2+1'):
+        yield ('edges', what, 0, 'vector', seed)
 
 
 def decode_case(c):
@@ -97,8 +103,23 @@ def giant_phase(ncyc, seed):
     return (within + 0.5) / lens[cyc] * 2 * np.pi
 
 
+def edge_phase(what):
+    if what == 'const4096':
+        lens = [4096] * 40
+    else:
+        lens = [128, 128] + [2 ** k for k in range(8, 18)] + [2 ** 17, 1000]
+        if what == 'pow2-1':
+            lens[0] -= 1
+        elif what == 'pow2+1':
+            lens[0] += 1
+    return np.concatenate([(np.arange(n) + 0.5) / n * 2 * np.pi for n in lens])
+
+
 def build_phase(case):
     kind, s, si, lay, seed = case
+    if kind == 'edges':
+        col = edge_phase(s)
+        return col.copy(), [col]
     if kind == 'seq':
         a = np.array(alphabet(seed))
         col = a[list(s)]
@@ -188,7 +209,11 @@ def check_case(case):
                 viols.append(('all:labels:read-only-input', '%s: read-only input gives different labels' % describe(case)))
             continue
         try:
+            # a caller-owned buffer refilled in place from case to case (one per shape / dtype)
+            ph_in = _refill(phase, 'phase')
             out = get_cycle_vector(ph_in, return_good=rg, phase_step=step)
+            if not np.array_equal(ph_in, phase):
+                viols.append(('input-modified', '%s: the phase array was changed' % describe(case)))
         except Exception as e:  # "detection never fails"
             viols.append(('raise:%s:good=%s' % (type(e).__name__, rg), '%r raised %r' % (describe(case), e)))
             continue
@@ -226,6 +251,8 @@ def describe(case):
         return 'integer-typed phase=%s step=%.4f' % ([INT_ALPHABET[i] for i in s], STEPS[si])
     if kind == 'giant':
         return 'synthetic phase with %d cycles of 3..6 samples, step=%.4f' % (s, STEPS[si])
+    if kind == 'edges':
+        return 'recording of %d samples with wraps at %s, step=%.4f' % (len(edge_phase(s)), s, STEPS[si])
     return 'long phase %s step=%.4f layout=%s' % (s, STEPS[si], lay)
 
 
